@@ -343,6 +343,12 @@ def step (line : String) : String :=
         let x := Date.new y m d
         let f := fun (verb : Nat) => hex (Date.formatVerb x verb)
         pure s!"{hex (Date.marshalText x)} {hex (Date.toString x)} {f 115} {f 101} {f 98} {f 118}").getD bad
+  | ["date.verb", y, m, d, h] =>
+    -- `fmt.Sprintf(format, date)` for a format `%[flags][width][.prec]verb` (hex): Date.Format ignores flags, width and precision
+    -- and chooses the layout by the verb alone (documented table: %b basic; %e, %s and every other verb extended)
+    (do let y ← y.toInt?; let m ← m.toInt?; let d ← d.toInt?; let f ← unhex h
+        let verb ← f.getLast?
+        pure (hex (Date.formatVerb (Date.new y m d) verb))).getD bad
   | ["date.parse", maxlen, rule, h] =>
     (do let ml ← maxlen.toNat?; let r ← bitsField rule; let s ← unhex h
         pure (outcomeStr dateStr (Date.parse ml (Date.ruleDisableBasic r) s))).getD bad
